@@ -15,6 +15,7 @@ package route
 //@
 //@ func (r *Route) TotalFees
 //@   props C19
+//@   bounds-safe
 //@   requires r != nil
 //@   requires forallq(k, 0, len(r.Hops), r.Hops[k] != nil)
 //@   ensures result == ite(len(r.Hops) == 0, 0, wrap(r.TotalAmount - r.Hops[len(r.Hops) - 1].AmtToForward, 64))
@@ -34,6 +35,7 @@ package route
 //@
 //@ func NewRouteFromHops
 //@   props C19
+//@   bounds-safe
 //@   ensures result1 == nil ==> len(hops) > 0 && result0 != nil && result0.Hops == hops && result0.TotalAmount == amtToSend &&
 //@           result0.TotalTimeLock == timeLock
 //@   ensures len(hops) > 0 ==> result1 == nil
@@ -42,11 +44,13 @@ package route
 //@ // ---- with its own length prefix and the HMAC
 //@ func (h *Hop) PayloadSize$1
 //@   props C19
+//@   bounds-safe
 //@   site call VarIntSize nth 0: assert arg(0) == tlvType
 //@   site call VarIntSize nth 1: assert arg(0) == length
 //@
 //@ func (h *Hop) PayloadSize
 //@   props C19
+//@   bounds-safe
 //@   loop * havoc
 //@   site call VarIntSize nth 2: assert arg(0) == *addr(payloadSize)
 //@   site call SizeTUint64 nth 0: assert arg(0) == h.AmtToForward
